@@ -188,7 +188,9 @@ def run_case(vk, p):
                         s > 0 and Fraction(v) == 0 for s, v in zip(lib, vec)) else "unexplained"
                     fail("bloc-sizes-not-huntington-hill", f"sizes {sizes} reference {ref_sizes} library {lib} for {vec}, N={N}", cause)
             elif kind in TWO_BLOC and ap and ap[0]["res"] != ref and not tie:
-                fail("bloc-cross-split-not-huntington-hill", f"library {ap[0]['res']} reference {ref}")
+                lib = ap[0]["res"]
+                cause = "zero-weight-party-seated" if any(s > 0 and Fraction(v) == 0 for s, v in zip(lib, vec)) else "unexplained"
+                fail("bloc-cross-split-not-huntington-hill", f"library {lib} reference {ref} for {vec}, N={N}", cause)
             # completeness / zero-support group per bloc
             for b in p["blocs"]:
                 check_bloc_ballots(p, b, by[b], fail, tags)
